@@ -60,7 +60,25 @@ def rule_A1(ctx):
         name = f["name"]
         want = sp["functions"].get(name)
         if want is None:
-            r.finding(p, "no-spec", loc(f["hir"]), "public instruction function `%s` has no row in spec/arity.json" % name)
+            # an instruction function the spec does not know (a language extension): it must at least have ONE fixed effect
+            try:
+                outs = model.summary(p, entry_args(f["mir"]["argc"]), 0)
+            except (ai.StateCapExceeded, rt.Unmodelled) as e:
+                r.finding(p, "uninterpretable", loc(f["hir"]), "cannot interpret new instruction function `%s` (%s)" % (name, e))
+                continue
+            eff = set()
+            for rv, ts in outs:
+                kind, d, v, fd, jump = outcome_of(rv, ts)
+                if kind == "ok":
+                    eff.add((d, v, fd, jump))
+            by_jump = {}
+            for d, v, fd, jump in eff:
+                by_jump.setdefault(jump, set()).add((d, v, fd))
+            r.examine((p, "unspecified"), True, {"fn": name, "not_in_spec": True, "ok_effects": sorted(map(repr, eff))})
+            if any(len(x) > 1 for x in by_jump.values()):
+                r.finding(p, "arity:inconsistent", loc(f["hir"]), "`%s` (not in spec/arity.json) has Ok paths with different stack effects for the same jump result: %s" % (name, sorted(map(repr, eff))))
+            else:
+                r.info.append("`%s` is not in spec/arity.json (language extension): its Ok paths have one fixed effect per jump result %s" % (name, sorted(map(repr, eff))))
             continue
         if want == "n-ary":
             if p in sp["trusted"]:
